@@ -616,7 +616,7 @@ def elem_ref(I, st, a0):
 
 
 def storage(I, st, frame, t, name, tys, method, args, ev):
-    D = lambda v: I.deref_full(st, v)   # noqa: E731
+    D = lambda v: I.snapshot(st, v)   # noqa: E731
     a0 = args[0] if args else EMPTY
     site = (frame.body.id, ev.bb if ev else -3, 6)
     if method == "new" or method == "new_ref":
@@ -814,6 +814,7 @@ def cosmwasm(I, st, frame, t, name, self_ty, tys, trait, method, args, ev):
 # first-party helpers modelled as primitives (trusted base; re-derived from their own MIR in the thorough tier)
 LOCAL_PRIMITIVES = {
     "mantra_dex_std::coin::aggregate_coins": "regroups coins by denom (lossless: elements keep their origin)",
+    "mantra_dex_std::epoch_manager::get_current_epoch": "smart query CurrentEpoch{} to the given epoch manager; returns its .epoch",
 }
 
 
@@ -822,4 +823,6 @@ def local_primitive(I, st, frame, callee_id, args):
         a0 = I.deref_full(st, args[0]) if args else EMPTY
         el = I.deref_full(st, elem_of(I, st, a0)) if not a0.is_empty() else EMPTY
         return Val(frozenset(), {"[*]": without_tags(el)})
+    if callee_id == "mantra_dex_std::epoch_manager::get_current_epoch":
+        return with_tag(V("Query(CurrentEpoch)"), "#may:key", I.derive(st, [I.deref_full(st, a) for a in args[1:]], "query"))
     return NotImplemented
